@@ -47,7 +47,7 @@ def date_from_json(s):
 
 @st.composite
 def cases(draw, tier):
-    spec = draw(gen.h5_table_specs(tier))
+    spec = draw(gen.h5_table_specs(tier, poke=True))
     return {"table": spec,
             "compress": draw(st.booleans()),
             "writer": draw(st.sampled_from(["to_hdf5", "save_table"])),
@@ -125,6 +125,7 @@ def check(case, rec):
     lay = observe.layout(t)
     rec.cls("fmt:%s" % lay.get("format"))
     rec.cls("unsorted", lay.get("sorted") is False)
+    rec.cls("stored-zeros", bool(lay.get("stored_zeros")))
     rec.cls("compress", case["compress"])
     rec.cls("writer:" + case["writer"])
     rec.cls("reader:" + case["reader"])
